@@ -142,6 +142,7 @@ theorem control_prefix (m : Machine σ) (x : Ext σ) (endT : Option Nat) (fuel :
       | bp b => exact ⟨k0, hz⟩
       | clear => exact ⟨k0, hz⟩
       | pauseAt k => exact ⟨k0, hz⟩
+      | bpAt k b => exact ⟨k0, hz⟩
       | reset => have := hc .reset (by simp); simp [Cmd.isControl] at this
       | sched sp rel => have := hc (.sched sp rel) (by simp); simp [Cmd.isControl] at this
       | go =>
@@ -224,8 +225,8 @@ theorem step_exact (m : Machine σ) (endT : Option Nat) (fuel : Nat) (s : St σ)
                 rcases stepWith_processed m s (minOf x xs) with h | h
                 · exact absurd h hne'
                 · exact h
-              simp only [List.filter_nil, List.isEmpty_nil, if_true, Option.map_some,
-                List.contains_nil, Bool.or_self]
+              simp only [added, List.filter_nil, List.map_nil, List.append_nil, List.isEmpty_nil, if_true,
+                Option.map_some, List.contains_nil, Bool.or_self]
               intro hpz
               have := ih (stepWith m s (minOf x xs)) (r - 1) hpz
               omega
@@ -247,45 +248,91 @@ example :
 /-! ### breakpoints -/
 
 /-- **"a breakpoint pauses right after the first delivery that satisfies it"**: in any call of
-    run()/resume()/step(n), a delivery on which some registered breakpoint fires is the *last*
-    delivery of that call, no earlier delivery of the call fired any registered breakpoint, and the
-    call comes back paused in the engine state right after that delivery -/
+    run()/resume()/step(n), a delivery on which some breakpoint registered at that moment fires —
+    registered before the call, or by an on_event hook during it, the hooks of that very delivery
+    included — is the *last* delivery of the call, no earlier delivery of the call fired any
+    breakpoint registered at its moment, and the call comes back paused in the engine state right
+    after that delivery -/
 theorem breakpoint_first (m : Machine σ) (endT : Option Nat) (fuel : Nat) (s : St σ) (c : Ctl)
-    (pre : List (St σ × Ev)) (p : St σ × Ev) (post : List (St σ × Ev))
-    (hD : ctlDelivs m endT fuel s c = pre ++ p :: post) (hf : fires c.bps p) :
-    post = [] ∧ (∀ q ∈ pre, ¬ fires c.bps q) ∧
-      (ctlLoop m endT fuel s c).2.2 = .paused ∧ (ctlLoop m endT fuel s c).1 = p.1 := by
+    (pre : List ((St σ × Ev) × List Bp)) (x : (St σ × Ev) × List Bp) (post : List ((St σ × Ev) × List Bp))
+    (hD : ctlDelivs m endT fuel s c = pre ++ x :: post) (hf : fires x.2 x.1) :
+    post = [] ∧ (∀ q ∈ pre, ¬ fires q.2 q.1) ∧
+      (ctlLoop m endT fuel s c).2.2 = .paused ∧ (ctlLoop m endT fuel s c).1 = x.1.1 := by
   have F := callFacts m endT fuel s c
-  obtain ⟨h1, h2, h3, _⟩ := F.first pre p post hD hf
+  obtain ⟨h1, h2, h3, _⟩ := F.first pre x post hD hf
   refine ⟨h1, ?_, h2, h3⟩
   intro q hq hfq
   obtain ⟨a, b, rfl⟩ := List.append_of_mem hq
-  have hD' : ctlDelivs m endT fuel s c = a ++ q :: (b ++ p :: post) := by
+  have hD' : ctlDelivs m endT fuel s c = a ++ q :: (b ++ x :: post) := by
     rw [hD]; simp
   have := (F.first a q _ hD' hfq).1
   simp at this
 
+/-- in particular for the breakpoints registered when the call starts: they stay registered through
+    the call (`CallFacts.grow`), so the first delivery that satisfies one of them is the last one -/
+theorem breakpoint_first_registered (m : Machine σ) (endT : Option Nat) (fuel : Nat) (s : St σ) (c : Ctl)
+    (pre : List ((St σ × Ev) × List Bp)) (x : (St σ × Ev) × List Bp) (post : List ((St σ × Ev) × List Bp))
+    (hD : ctlDelivs m endT fuel s c = pre ++ x :: post) (hf : fires c.bps x.1) :
+    post = [] ∧ (∀ q ∈ pre, ¬ fires c.bps q.1) ∧
+      (ctlLoop m endT fuel s c).2.2 = .paused ∧ (ctlLoop m endT fuel s c).1 = x.1.1 := by
+  have F := callFacts m endT fuel s c
+  have hmem : ∀ y ∈ ctlDelivs m endT fuel s c, fires c.bps y.1 → fires y.2 y.1 := by
+    intro y hy ⟨b, hb, hh⟩
+    exact ⟨b, F.grow y hy b hb, hh⟩
+  have hx : x ∈ ctlDelivs m endT fuel s c := by rw [hD]; simp
+  obtain ⟨h1, h2, h3, h4⟩ := breakpoint_first m endT fuel s c pre x post hD (hmem x hx hf)
+  refine ⟨h1, ?_, h3, h4⟩
+  intro q hq hfq
+  exact h2 q hq (hmem q (by rw [hD]; exact List.mem_append_left _ hq) hfq)
+
+/-- **a breakpoint registered by a hook while the loop is running is in force at once**: if an
+    on_event hook adds breakpoint `b` after the delivery that makes `processed = k`, and `b` is
+    satisfied right after that delivery, the call pauses there — there is no need for the registry
+    to have been non-empty when the call entered the loop -/
+theorem hook_added_breakpoint_first (m : Machine σ) (endT : Option Nat) (fuel : Nat) (s : St σ) (c : Ctl)
+    (k : Nat) (b : Bp) (ha : (k, b) ∈ c.addAt)
+    (pre : List ((St σ × Ev) × List Bp)) (x : (St σ × Ev) × List Bp) (post : List ((St σ × Ev) × List Bp))
+    (hD : ctlDelivs m endT fuel s c = pre ++ x :: post) (hk : x.1.1.processed = k)
+    (hh : b.hit x.1.1 x.1.2 = true) :
+    post = [] ∧ (ctlLoop m endT fuel s c).2.2 = .paused ∧ (ctlLoop m endT fuel s c).1 = x.1.1 := by
+  have F := callFacts m endT fuel s c
+  have hx : x ∈ ctlDelivs m endT fuel s c := by rw [hD]; simp
+  have hb : b ∈ x.2 := F.hooked x hx (k, b) ha hk.symm
+  obtain ⟨h1, _, h3, h4⟩ := breakpoint_first m endT fuel s c pre x post hD ⟨b, hb, hh⟩
+  exact ⟨h1, h3, h4⟩
+
+-- non-vacuity: no breakpoint is registered when run() enters the loop; an on_event hook registers
+-- "time ≥ 2" after the third event (t = 3), which is satisfied at once: the run pauses with exactly three
+-- events processed (of five), and the one-shot breakpoint is gone
+example :
+    let mc : Machine Unit := { handle := fun _ _ _ => { ent := () } }
+    let s0 : St Unit := init () 0 [⟨1, 0, 0, false, 0, 0⟩, ⟨2, 0, 0, false, 0, 0⟩, ⟨3, 0, 0, false, 0, 0⟩,
+                                  ⟨4, 0, 0, false, 0, 0⟩, ⟨5, 0, 0, false, 0, 0⟩]
+    let r := ctlLoop mc (some 10) 100 s0 { addAt := [(3, .time 2 true)] }
+    r.2.2 = .paused ∧ r.1.processed = 3 ∧ r.2.1.bps = [] ∧
+    (ctlLoop mc (some 10) 100 s0 {}).2.2 = .complete := by decide
+
 /-- conversely, a call comes back paused only for a cause: a pause request or an exhausted step
-    budget (`shouldPause`), or a registered breakpoint that fires on the last delivery — which then is
-    the first delivery of the call that fires one -/
+    budget (`shouldPause`), or a breakpoint registered at that moment that fires on the last delivery
+    — which then is the first delivery of the call that fires one -/
 theorem breakpoint_pause_cause (m : Machine σ) (endT : Option Nat) (fuel : Nat) (s : St σ) (c : Ctl)
     (hp : (ctlLoop m endT fuel s c).2.2 = .paused) :
     shouldPause (ctlLoop m endT fuel s c).2.1 = true ∨
-    ∃ pre p, ctlDelivs m endT fuel s c = pre ++ [p] ∧ (ctlLoop m endT fuel s c).1 = p.1 ∧
-      fires c.bps p ∧ ∀ q ∈ pre, ¬ fires c.bps q := by
+    ∃ pre x, ctlDelivs m endT fuel s c = pre ++ [x] ∧ (ctlLoop m endT fuel s c).1 = x.1.1 ∧
+      fires x.2 x.1 ∧ ∀ q ∈ pre, ¬ fires q.2 q.1 := by
   have F := callFacts m endT fuel s c
-  by_cases hq : ∀ p ∈ ctlDelivs m endT fuel s c, ¬ fires c.bps p
+  by_cases hq : ∀ x ∈ ctlDelivs m endT fuel s c, ¬ fires x.2 x.1
   · exact Or.inl ((F.quiet hq).2 hp)
   · right
-    have : ∃ p, p ∈ ctlDelivs m endT fuel s c ∧ fires c.bps p := by
+    have : ∃ x, x ∈ ctlDelivs m endT fuel s c ∧ fires x.2 x.1 := by
       apply Classical.byContradiction
       intro hne
       exact hq (fun p hp' hf => hne ⟨p, hp', hf⟩)
-    obtain ⟨p, hpm, hf⟩ := this
+    obtain ⟨x, hpm, hf⟩ := this
     obtain ⟨pre, post, hD⟩ := List.append_of_mem hpm
-    obtain ⟨h1, h2, _, h4⟩ := breakpoint_first m endT fuel s c pre p post hD hf
+    obtain ⟨h1, h2, _, h4⟩ := breakpoint_first m endT fuel s c pre x post hD hf
     subst h1
-    exact ⟨pre, p, hD, h4, hf, h2⟩
+    exact ⟨pre, x, hD, h4, hf, h2⟩
 
 /-! ### MetricBreakpoint: zero is a value, only `None` is missing -/
 
@@ -317,13 +364,13 @@ theorem metric_missing_never_fires (s : St σ) (last : Ev) (ent attr : Nat) (op 
     paused in the state right after `p` -/
 theorem metric_breakpoint_first (m : Machine σ) (endT : Option Nat) (fuel : Nat) (s : St σ) (c : Ctl)
     (ent attr : Nat) (op : Cmp) (thr2 : Int) (o : Bool) (hb : Bp.metric ent attr op thr2 o ∈ c.bps)
-    (pre : List (St σ × Ev)) (p : St σ × Ev) (post : List (St σ × Ev))
-    (hD : ctlDelivs m endT fuel s c = pre ++ p :: post) (v : Int)
-    (hv : Probe.read p.1.ent ent attr = some v) (hc : op.holds (2 * v) thr2 = true) :
-    post = [] ∧ (∀ q ∈ pre, ¬ fires c.bps q) ∧
-      (ctlLoop m endT fuel s c).2.2 = .paused ∧ (ctlLoop m endT fuel s c).1 = p.1 :=
-  breakpoint_first m endT fuel s c pre p post hD
-    ⟨_, hb, (metric_hit_iff p.1 p.2 ent attr op thr2 o).mpr ⟨v, hv, hc⟩⟩
+    (pre : List ((St σ × Ev) × List Bp)) (x : (St σ × Ev) × List Bp) (post : List ((St σ × Ev) × List Bp))
+    (hD : ctlDelivs m endT fuel s c = pre ++ x :: post) (v : Int)
+    (hv : Probe.read x.1.1.ent ent attr = some v) (hc : op.holds (2 * v) thr2 = true) :
+    post = [] ∧ (∀ q ∈ pre, ¬ fires c.bps q.1) ∧
+      (ctlLoop m endT fuel s c).2.2 = .paused ∧ (ctlLoop m endT fuel s c).1 = x.1.1 :=
+  breakpoint_first_registered m endT fuel s c pre x post hD
+    ⟨_, hb, (metric_hit_iff x.1.1 x.1.2 ent attr op thr2 o).mpr ⟨v, hv, hc⟩⟩
 
 /-- a tank whose level every event lowers by one; the level is what a breakpoint can watch -/
 instance : Probe Int := ⟨fun l _ _ => some l⟩
@@ -343,26 +390,27 @@ example :
     that call -/
 theorem oneshot_removed_only_if_fired (m : Machine σ) (endT : Option Nat) (fuel : Nat) (s : St σ)
     (c : Ctl) (b : Bp) (hb : b ∈ c.bps) (hgone : b ∉ (ctlLoop m endT fuel s c).2.1.bps) :
-    b.oneShot = true ∧ ∃ pre p, ctlDelivs m endT fuel s c = pre ++ [p] ∧ b.hit p.1 p.2 = true := by
+    b.oneShot = true ∧ ∃ pre x, ctlDelivs m endT fuel s c = pre ++ [x] ∧ b.hit x.1.1 x.1.2 = true := by
   have F := callFacts m endT fuel s c
-  by_cases hq : ∀ p ∈ ctlDelivs m endT fuel s c, ¬ fires c.bps p
-  · rw [(F.quiet hq).1] at hgone; exact absurd hb hgone
-  · have : ∃ p, p ∈ ctlDelivs m endT fuel s c ∧ fires c.bps p := by
+  by_cases hq : ∀ x ∈ ctlDelivs m endT fuel s c, ¬ fires x.2 x.1
+  · exact absurd ((F.quiet hq).1 b hb) hgone
+  · have : ∃ x, x ∈ ctlDelivs m endT fuel s c ∧ fires x.2 x.1 := by
       apply Classical.byContradiction
       intro hne
       exact hq (fun p hp' hf => hne ⟨p, hp', hf⟩)
-    obtain ⟨p, hpm, hf⟩ := this
+    obtain ⟨x, hpm, hf⟩ := this
     obtain ⟨pre, post, hD⟩ := List.append_of_mem hpm
-    obtain ⟨h1, _, _, h4⟩ := F.first pre p post hD hf
+    obtain ⟨h1, _, _, h4⟩ := F.first pre x post hD hf
     subst h1
     rw [h4] at hgone
-    have : (b.hit p.1 p.2 && b.oneShot) = true := by
-      by_cases hx : (b.hit p.1 p.2 && b.oneShot) = true
+    have hbx : b ∈ x.2 := F.grow x hpm b hb
+    have : (b.hit x.1.1 x.1.2 && b.oneShot) = true := by
+      by_cases hx : (b.hit x.1.1 x.1.2 && b.oneShot) = true
       · exact hx
-      · have hx' : (b.hit p.1 p.2 && b.oneShot) = false := by simpa using hx
-        exact absurd (List.mem_filter.mpr ⟨hb, by simp [hx']⟩) hgone
+      · have hx' : (b.hit x.1.1 x.1.2 && b.oneShot) = false := by simpa using hx
+        exact absurd (List.mem_filter.mpr ⟨hbx, by simp [hx']⟩) hgone
     simp at this
-    exact ⟨this.2, pre, p, hD, this.1⟩
+    exact ⟨this.2, pre, x, hD, this.1⟩
 
 /-- with nothing armed — no pause request, no step budget, no breakpoint, no pausing hook — a call
     never comes back paused (in particular the run() after a reset(), see `reset_clears_control`) -/
@@ -469,6 +517,7 @@ theorem session_inv (m : Machine σ) (x : Ext σ) (endT : Option Nat) (fuel : Na
     | bp b => exact inv
     | clear => exact inv
     | pauseAt k => exact inv
+    | bpAt k b => exact inv
     | reset => simp only [Sess.apply]; exact reset_inv _ _ _
     | sched sp rel =>
       simp only [Sess.apply]
